@@ -173,6 +173,7 @@ class ContractTable:
         elif c in ("Minus", "Divide", "Power"):
             args = [self.make_child(I, f"{name}._left"), self.make_child(I, f"{name}._right")]
         elif c in ("NthPower", "NthRoot"):
+            # class invariant (constructor contract, C16): the stored degree is a Python int >= 1
             args = [self.make_child(I, f"{name}._inner"), SNum(z3.Int(f"{name}.n"), True)]
         elif c in ("Exponential", "Logarithm"):
             args = [self.make_child(I, f"{name}._inner"),
